@@ -345,6 +345,16 @@ def shape_append(hd):
     return None
 
 
+def shape_count_stmt(hd):
+    """lets ++ [SSetdef f keys; SAugAdd f keys amt], all simple  ->  (params, lets, f, keys, amt)"""
+    b = hd['body']
+    if len(b) >= 2 and all(s[0] == 'Simple' for s in b):
+        ss_ = [s[1] for s in b]; s1, s2 = ss_[-2], ss_[-1]
+        if s1[0] == 'SSetdef' and s2[0] == 'SAugAdd' and s1[1] == s2[1] and s1[2] == s2[2] and all(x[0] == 'SLet' for x in ss_[:-2]):
+            return hd['params'], ss_[:-2], s1[1], s1[2], s2[3]
+    return None
+
+
 ROSTER_KEYS = ['Avatar_onArenaStateReceived', 'Avatar_onGameRoomStateChanged', 'Avatar_onNewPlayerSpawnedInBattle']
 
 
@@ -359,7 +369,7 @@ def coq_files(ts):
     g.append('Definition gen_version_programs : list (string * string) := [%s].' % '; '.join('(%s, %s)' % (coq_str(t['version']), coq_str(ctl_digest(t))) for t in ts))
     g.append('Definition gen_untranslated : list (string * string) := [%s].' % '; '.join('(%s, %s)' % (coq_str(t['version']), coq_str(clean(k + ': ' + v))) for t in ts for k, v in sorted(t['untranslated'].items())))
     g.append('Definition gen_problems : list (string * string) := [%s].' % '; '.join('(%s, %s)' % (coq_str(t['version']), coq_str(clean(p))) for t in ts for p in t['problems']))
-    i = ['From RU Require Import Base Summary SummaryProofs.', 'From Gen Require Import GenC09.', 'Local Open Scope string_scope.', '',
+    i = ['From RU Require Import Base Summary SummaryProofs SummaryProofs2.', 'From Gen Require Import GenC09.', 'Local Open Scope string_scope.', '',
          '(* every subscribed handler of every bundled controller was translated *)',
          'Theorem inst_all_translated : gen_untranslated = [] /\\ gen_problems = [].', 'Proof. split; reflexivity. Qed.', '']
     missing = []
@@ -384,6 +394,28 @@ def coq_files(ts):
             i.append('Proof. exact (append_history ctl_%s "Avatar_receiveVehicleDeath" %s [%s] %s eq_refl eq_refl (others_dont_write_sound ctl_%s "Avatar_receiveVehicleDeath" %s eq_refl)). Qed.' % (
                 d, coq_str(f), '; '.join(coq_str(p) for p in ps), ex(e), d, coq_str(f)))
         else: missing.append((d, 'Avatar_receiveVehicleDeath is not a single append'))
+        for key in ('Avatar_receive_planeDeath', 'Avatar_onAchievementEarned', 'Avatar_onRibbon', 'Vehicle_onRibbon'):
+            if key not in hs: continue
+            cs_ = shape_count_stmt(hs[key]); ap = shape_append(hs[key])
+            nm = key.split('_', 1)[1].replace('_', '')
+            if cs_ and all(pure_py(k) for k in cs_[3]) and pure_py(cs_[4]):
+                ps, lets, f, keys, amt = cs_
+                i.append('Theorem inst_%s_%s : forall evs st st\' d, get_dict_field st %s = Ok d -> run_events_strict ctl_%s st evs = (st\', None) ->\n'
+                         '  exists es d\', dyn_entries ctl_%s %s [%s] [%s] [%s] %s st evs = Ok es /\\ count_all d es = Ok d\' /\\ get_dict_field st\' %s = Ok d\'.' % (
+                             nm, d, coq_str(f), d, d, coq_str(key), '; '.join(coq_str(p) for p in ps), '; '.join(ss(x) for x in lets), '; '.join(ex(k) for k in keys), ex(amt), coq_str(f)))
+                i.append('Proof. exact (count_stmt_history ctl_%s %s %s [%s] [%s] [%s] %s eq_refl eq_refl eq_refl eq_refl (others_dont_write_sound ctl_%s %s %s eq_refl)). Qed.' % (
+                    d, coq_str(key), coq_str(f), '; '.join(coq_str(p) for p in ps), '; '.join(ss(x) for x in lets), '; '.join(ex(k) for k in keys), ex(amt), d, coq_str(key), coq_str(f)))
+            elif ap and pure_t_py(ap[2]):
+                ps, f, e = ap
+                i.append('Theorem inst_%s_%s : forall evs st st\' l0, assoc_get %s (st_fields st) = Some (PList l0) -> run_events_strict ctl_%s st evs = (st\', None) ->\n'
+                         '  exists vs, history_values %s [%s] %s st evs = Ok vs /\\ assoc_get %s (st_fields st\') = Some (PList (l0 ++ vs)%%list).' % (
+                             nm, d, coq_str(f), d, coq_str(key), '; '.join(coq_str(p) for p in ps), ex(e), coq_str(f)))
+                i.append('Proof. exact (append_history ctl_%s %s %s [%s] %s eq_refl eq_refl (others_dont_write_sound ctl_%s %s %s eq_refl)). Qed.' % (
+                    d, coq_str(key), coq_str(f), '; '.join(coq_str(p) for p in ps), ex(e), d, coq_str(key), coq_str(f)))
+            else: missing.append((d, key + ' is neither the counting idiom nor a single append'))
+        i.append('(* the roster after any accepted history is the fold of the roster calls\' merges *)')
+        i.append('Theorem inst_roster_%s : forall evs st st\', run_events_strict ctl_%s st evs = (st\', None) -> players_fold ctl_%s (st_players st) evs = (st_players st\', None).' % (d, d, d))
+        i.append('Proof. exact (roster_history ctl_%s eq_refl). Qed.' % d)
         i.append('(* only the three roster calls can change the roster; no handler but the map setter writes _map, none but the player hook writes _player_id *)')
         i.append('Theorem inst_frames_%s : only_these_merge_rosters ctl_%s [%s] = true /\\ others_dont_write ctl_%s "<map>" "_map" = true /\\ others_dont_write ctl_%s "<player>" "_player_id" = true.' % (
             d, d, '; '.join(coq_str(k) for k in ROSTER_KEYS), d, d))
